@@ -5,7 +5,8 @@ sys.path.insert(0, os.path.join(os.path.dirname(os.path.abspath(__file__)), ".."
 from vlib import *
 
 OVERLAY = {"p2p/net/swarm/zz_c06_verif_test.go": "harness/overlay/swarm/c06_verif_test.go",
-           "p2p/net/swarm/zz_c06s_verif_test.go": "harness/overlay/swarm/c06s_verif_test.go"}
+           "p2p/net/swarm/zz_c06s_verif_test.go": "harness/overlay/swarm/c06s_verif_test.go",
+           "p2p/net/swarm/zz_c06w_verif_test.go": "harness/overlay/swarm/c06w_verif_test.go"}
 PKG = "p2p/net/swarm"
 
 
@@ -33,7 +34,20 @@ def harness(ctx, casefile, tier, seed):
         if os.path.exists(sw + ".cov"):
             with open(casefile + ".cov", "a") as f:
                 f.write(open(sw + ".cov").read())
-    return (rc or rc2), out + out2
+    # swarm-level runs with fake transport conns (kind 8 cases)
+    sw8 = casefile + ".sw8"
+    for p in (sw8, sw8 + ".cov"):
+        if os.path.exists(p):
+            os.remove(p)
+    rc3, out3 = ctx.go_test(PKG, "TestVerifC06Sw$", OVERLAY,
+                            env={"VERIF_OUT": sw8, "VERIF_TIER": tier, "VERIF_SEED": str(seed)}, timeout=3000)
+    if os.path.exists(sw8) and os.path.exists(casefile):
+        with open(casefile, "a") as f:
+            f.write(open(sw8).read())
+        if os.path.exists(sw8 + ".cov"):
+            with open(casefile + ".cov", "a") as f:
+                f.write(open(sw8 + ".cov").read())
+    return (rc or rc2 or rc3), out + out2 + out3
 
 
 def warm(ctx):
@@ -43,7 +57,8 @@ def warm(ctx):
 
 
 def replay_harness(ctx, casefile, toks):
-    return ctx.go_test(PKG, "TestVerifC06SwarmReplay$" if toks and toks[0] == 7 else "TestVerifC06Replay$", OVERLAY,
+    run = {7: "TestVerifC06SwarmReplay$", 8: "TestVerifC06SwReplay$"}.get(toks[0] if toks else 0, "TestVerifC06Replay$")
+    return ctx.go_test(PKG, run, OVERLAY,
                        env={"VERIF_OUT": casefile, "VERIF_REPLAY_CASE": " ".join(map(str, toks))}, timeout=600)
 
 
@@ -51,6 +66,14 @@ SNAMES = {9: "Connected.begin", 10: "Connected.end", 11: "Disconnected.begin", 1
           14: "Pub", 18: "SwarmCloseCall", 19: "SwarmCloseRet", 20: "FinalConnectedness", 21: "Listed", 15: "Quiesce", 16: "Stuck"}
 SCLAUSE = {1: "connected-exactly-once", 2: "disconnected-once-after-connected", 3: "swarm-close-waits", 4: "no-repeated-state",
            5: "quiescence(truthful/listed/exactly-once)", 6: "stuck", 7: "stream-before-connected"}
+VNAMES = {31: "addConn.call", 32: "addConn.ret", 9: "Connected.begin", 10: "Connected.end", 11: "Disconnected.begin",
+          12: "Disconnected.end", 33: "transportClose.begin", 34: "transportClose.end", 35: "AcceptStream", 36: "Conn.Close.call",
+          14: "Pub", 37: "Swarm.Close.call", 38: "Swarm.Close.ret", 39: "SeenListed", 40: "ObsConnectedness", 41: "ObsListed",
+          15: "Quiesce", 16: "Stuck"}
+VCLAUSE = {1: "connected-exactly-once", 2: "disconnected-once-after-connected", 3: "swarm-close-waits", 4: "no-repeated-state",
+           5: "quiescence(truthful: last event / Connectedness / listed conns)", 6: "stuck", 7: "stream-loop-before-connected",
+           8: "disconnected-before-transport-closed", 9: "swarm-close-returned-before-admitted-conn-was-notified"}
+CST = {0: "NotConnected", 1: "Connected", 4: "Limited"}
 NAMES = {1: "Reg", 2: "Unreg", 3: "AddCall", 4: "AddRet", 5: "RemCall", 6: "RemRet", 7: "CloseCall", 8: "CloseRet",
          9: "ConnB", 10: "ConnE", 11: "DiscB", 12: "DiscE", 13: "Read", 14: "Pub", 15: "Quiesce", 16: "Stuck"}
 CLAUSE = {1: "connected-exactly-once", 2: "disconnected-once-after-connected", 3: "close-waits",
@@ -78,6 +101,22 @@ def sshow(lb):
     return n
 
 
+def vshow(lb):
+    code, x, y, z = lb
+    n = VNAMES.get(code, "?%d" % code)
+    if code == 31:
+        return "%s(c%d,p%d,%s%s)" % (n, x, y, "limited" if z & 1 else "unlimited", ",relayed" if z & 2 else ",direct")
+    if code == 32:
+        return "%s(c%d,%s)" % (n, x, "ok" if y else "error")
+    if code in (14, 40):
+        return "%s(p%d,%s)" % (n, x, CST.get(y, y))
+    if code == 41:
+        return "%s(c%d,%s)" % (n, x, "yes" if y else "no")
+    if code in (37, 38, 15, 16):
+        return n
+    return "%s(c%d)" % (n, x)
+
+
 def show(lb):
     code, x, y, z = lb
     n = NAMES.get(code, "?%d" % code)
@@ -91,6 +130,10 @@ def show(lb):
 
 
 def describe(t):
+    if t and t[0] == 8:
+        m = t[6:6 + t[5]]
+        return {"kind": "swarm with fake transport conns", "mode": {0: "synctest, forced schedule", 1: "real scheduler, addConn stalled after the insert into conns.m"}.get(m[0] if m else 0),
+                "meta(config+schedule)": m, "trace": [vshow(l) for l in labels_of(t)][:200]}
     if t and t[0] == 7:
         m = t[6:6 + t[5]]
         return {"kind": "whole swarm", "notifiees": m[0], "conns": m[1], "block Connected@0": m[2], "block Disconnected@0": m[3],
@@ -105,7 +148,7 @@ def describe(t):
 def nontrivial(line):
     # a removal overtook an in-flight Connected (RemCall c before ConnE c), or a repeated NotConnected was published
     t = [int(x) for x in line.split()]
-    if t and t[0] == 7:
+    if t and t[0] in (7, 8):
         return True
     seen_rem, lastpub = set(), {}
     for code, x, y, z in labels_of(t):
@@ -139,6 +182,9 @@ def key(tag, toks, d):
     # d = [902, position of the failing label, clause numbers...]
     labs = labels_of(toks)
     pos = d[1] if len(d) > 1 else len(labs)
+    if toks and toks[0] == 8:
+        return "C06:sw:%s:at=%s:%s" % (",".join(VCLAUSE.get(c, str(c)) for c in d[2:]), vshow(labs[pos]) if 0 <= pos < len(labs) else "?",
+                                       " ".join("%d.%d.%d.%d" % l for l in labs[:pos + 1]))
     if toks and toks[0] == 7:
         return "C06:swarm:%s:script=%s:at=%s:%s" % (",".join(SCLAUSE.get(c, str(c)) for c in d[2:]), toks[6:6 + toks[5]],
                                                     sshow(labs[pos]) if 0 <= pos < len(labs) else "?",
@@ -153,6 +199,9 @@ def key(tag, toks, d):
 def what(tag, toks, d):
     labs = labels_of(toks)
     pos = d[1] if len(d) > 1 else -1
+    if toks and toks[0] == 8:
+        return "swarm level: clause %s fails when %s is observed (label #%d)" % (
+            "+".join(VCLAUSE.get(c, str(c)) for c in d[2:]), vshow(labs[pos]) if 0 <= pos < len(labs) else "?", pos)
     if toks and toks[0] == 7:
         return "whole swarm: clause %s fails when %s is observed (label #%d)" % (
             "+".join(SCLAUSE.get(c, str(c)) for c in d[2:]), sshow(labs[pos]) if 0 <= pos < len(labs) else "?", pos)
